@@ -341,11 +341,20 @@ func (cap *commandArgParser) parseEachInput(args redisArgs, input ...respValue) 
 					if subValid {
 						ipos += testLength
 						for _, k := range rightVals.order {
-							_, exists := values.get(k)
+							rightVal := rightVals.mustGet(k)
+							leftVal, exists := values.get(k)
 							if exists {
-								panic("reused argument conflict in arg definition")
+								// a repeatable argument continues after other options: join the values;
+								// a single-value argument given twice is a syntax error
+								leftArray, leftMulti := leftVal.([]any)
+								rightArray, rightMulti := rightVal.([]any)
+								if !leftMulti || !rightMulti {
+									valid = false
+									return
+								}
+								rightVal = append(leftArray, rightArray...)
 							}
-							values.set(k, rightVals.mustGet(k))
+							values.set(k, rightVal)
 						}
 						valid = true
 						break
